@@ -50,7 +50,7 @@ func genC11(t *rapid.T) C11Case {
 	}
 	m := rapid.IntRange(0, 2*n+2).Draw(t, "nacts")
 	for i := 0; i < m; i++ {
-		c.Acts = append(c.Acts, C11Act{Op: rapid.SampledFrom([]string{"release", "release", "send", "disconnect", "newconn", "tunnel-echo", "sleep"}).Draw(t, "op"), I: rapid.IntRange(0, n-1).Draw(t, "i")})
+		c.Acts = append(c.Acts, C11Act{Op: rapid.SampledFrom([]string{"release", "release", "send", "send-connect", "disconnect", "newconn", "tunnel-echo", "sleep"}).Draw(t, "op"), I: rapid.IntRange(0, n-1).Draw(t, "i")})
 	}
 	return c
 }
@@ -279,12 +279,17 @@ func runC11once(c C11Case) (fails []vstat.Failure) {
 				cl.releasedAt = time.Now()
 				close(cl.release)
 			}
-		case "send":
+		case "send", "send-connect":
 			if cl.gone || cl.awaiting || cl.sentLate != "" || cl.spec.Phase == "tunnel" || cl.spec.Phase == "partial-head" {
 				continue
 			}
 			cl.sentLate = cl.vid + "-late"
-			fmt.Fprintf(cl.conn, "GET http://%s/late HTTP/1.1\r\nHost: %s\r\nX-Vid: %s\r\n\r\n", origin.Addr, origin.Addr, cl.sentLate)
+			if a.Op == "send-connect" {
+				// a tunnel request first sent during shutdown must not be established either
+				fmt.Fprintf(cl.conn, "CONNECT %s HTTP/1.1\r\nHost: %s\r\n\r\n", origin.Addr, origin.Addr)
+			} else {
+				fmt.Fprintf(cl.conn, "GET http://%s/late HTTP/1.1\r\nHost: %s\r\nX-Vid: %s\r\n\r\n", origin.Addr, origin.Addr, cl.sentLate)
+			}
 		case "disconnect":
 			if !cl.awaiting {
 				cl.gone = true
